@@ -41,6 +41,9 @@ func (xp xpathImpl) resolvePath(seg *xpath.Path, s *Selection) (*Selection, erro
 		if seg.Next == nil && seg.Expr == nil {
 			return sel, err
 		}
+		if seg.Next == nil {
+			return nil, fmt.Errorf("list '%s' cannot be compared with a value in xpath", seg.Ident)
+		}
 
 		li, err := sel.First()
 		if err != nil {
